@@ -100,7 +100,7 @@ theorem prefix_recovers_aux (hA : A.Lawful) (cfg cfg' : Cfg) (hp : cfg.prune = n
   have hnd : nd0' = nd0 := by injection h0
   subst hnd
   obtain ⟨gfin, _⟩ := runOps_spec hA cfg hp ops nd0' g0
-  have hs := gfin.core.sound k
+  have hs := (gfin.core.sound k).1
   rcases hs with hs | hs
   · rw [hs]
     obtain ⟨rn, r, g, t⟩ := recover_empty_spec (A := A) cfg'
@@ -216,7 +216,7 @@ theorem recover_idempotent_aux (cfg cfg' : Cfg) {img : Image A} (hi : Inv img) {
   have hrn : rn0 = rn := by injection r
   subst hrn
   have hinv : Inv (replay img (rn0.log.take j)) :=
-    inv_of_inv' (g0.core.sound j) (created_replay _ _ hi.created)
+    inv_of_inv' (g0.core.sound j).1 (created_replay _ _ hi.created)
   obtain ⟨rn', r', g', t', hrows⟩ := recover_spec cfg' hinv
   have hnb : NoBest (rn0.log.take j) := fun c hc => recover_nobest cfg hi.created r0 c (List.mem_of_mem_take hc)
   have ht : rn'.tip = rn0.tip := by rw [t', best_replay_nobest _ hnb, t0]
